@@ -11,6 +11,7 @@
 From Coq.Strings Require Import Byte String.
 From Coq Require Import List Arith NArith Bool.
 Import ListNotations.
+From V Require model.Quote.
 From V Require Import lib.Bytes lib.Sexp model.Ast model.Url model.Gen model.IrFrag.
 Local Open Scope nat_scope.
 
@@ -93,7 +94,16 @@ Notation PM := ((list expr * gst) -> (list expr * gst)).
 Definition lift (m : M) : PM := fun s => let '(q, g) := s in (q, m g).
 Definition pseq (a b : PM) : PM := fun s => b (a s).
 Definition pseqs {A} (f : A -> PM) (l : list A) : PM := fold_right (fun x acc => pseq (f x) acc) (fun s => s) l.
-Definition plit (s : bytes) : M := fun g => if inlit (w g) then wrs "<<literal not merged by coalesce>>" g else wl (qesc s) g.
+(* escapeQuotes on ARBITRARY bytes.  Gen.qesc passes every byte >= 0x80 through, which is what strconv.Quote does for well-formed
+   UTF-8 only: a byte that is not part of a well-formed sequence (a Latin-1 file, a lone continuation byte, a truncated, overlong or
+   surrogate form, C0 C1 F5..FF) is spelled \xNN by strconv.Quote, so that the Go literal - which must be valid UTF-8 for the
+   compiler, and which RangeWriter re-encodes rune by rune - still denotes the source bytes.  The fragment printer therefore quotes
+   with model/Quote.v's strconv.Quote; IsPrint, an oracle there, is taken to hold of every non-ASCII code point (the static text the
+   harness ties contains printable characters only; proofs/IrFragQuoteProof.v: equal to Gen.qesc on well-formed text, equal to
+   Quote with Go's own table whenever the well-formed non-ASCII characters are printable, reads back as the source bytes always). *)
+Definition frag_is_print (r : N) : bool := if (r <? 128)%N then (32 <=? r)%N && (r <? 127)%N else true.
+Definition fquote (s : bytes) : bytes := Quote.quote frag_is_print s.
+Definition plit (s : bytes) : M := fun g => if inlit (w g) then wrs "<<literal not merged by coalesce>>" g else wl (fquote s) g.
 Definition class_attr_name : bytes := bs "class".
 Fixpoint pstmt (lvl : nat) (s : stmt) {struct s} : PM :=
   match s with
